@@ -7,6 +7,8 @@ pub mod c05;
 pub mod c07;
 pub mod c08;
 pub mod c09;
+pub mod c11;
+pub mod c12;
 pub mod c13;
 pub mod c16;
 pub mod c17;
@@ -24,6 +26,8 @@ pub fn run(ctx: &Ctx) -> bool {
         "C07" => c07::run(ctx),
         "C08" => c08::run(ctx),
         "C09" => c09::run(ctx),
+        "C11" => c11::run(ctx),
+        "C12" => c12::run(ctx),
         "C13" => c13::run(ctx),
         "C16" => c16::run(ctx),
         "C17" => c17::run(ctx),
@@ -45,6 +49,8 @@ pub fn replay(prop: &str, check: &str, payload: &serde_json::Value) -> Option<Ve
         "C07" => c07::replay(case),
         "C08" => c08::replay(case),
         "C09" => c09::replay(case),
+        "C11" => c11::replay(case),
+        "C12" => c12::replay(case),
         "C13" => c13::replay(case),
         "C16" => c16::replay(case),
         "C17" => c17::replay(case),
